@@ -1097,7 +1097,7 @@ def run(ctx):
                 nontrivial.add(hash((tuple(map(tuple, sc.bursts)), tuple(sig))))
     ctx.coverage.update({
         "evaluations": len(bursts) + len(seqs), "distinct_nontrivial": len(nontrivial),
-        "rule": "seeded random scenarios: 2-4 users, 1-2 sessions each (+ optionally one session with a 2-slot send queue whose writer is stalled: slow-consumer eviction), 1-2 group/channel topics, a 'me' topic per user, optionally a p2p topic; BURST scenarios: 3-7 bursts in which ~70% of the sessions issue 1-3 requests each concurrently (sub/leave/unsub/pub/del-topic/del-user/disconnect) plus injected idle unloads, then a final burst re-subscribing to every group topic; SEQUENTIAL scenarios: 6-18 single requests over group topics (the model's alphabet), compared exactly with the extracted model; non-trivial = at least one request accepted (200); distinct by (requests, replies)",
+        "rule": "seeded random scenarios: 2-4 users, 1-2 sessions each (+ optionally one session with a 2-slot send queue whose writer is stalled: slow-consumer eviction), 1-2 group/channel topics, a 'me' topic per user, optionally a p2p topic; BURST scenarios: 3-7 bursts in which ~70% of the sessions issue 1-3 requests each concurrently (sub/leave/unsub/pub/del-topic/del-user/disconnect) plus injected idle unloads, then a final burst re-subscribing to every group topic; CHANNEL scenarios (gen_chan_scn_c14c): one channel-enabled topic whose users are partly group subscribers (grpXXX) and partly readers (chnXXX), optionally a plain group topic, 1-2 sessions with a 2-slot send queue; requests carry the name form (as=grp|chn): attach under either name, {leave} / {leave unsub} under either name, slow-consumer phases (writers stalled, the owner publishes 3-4 messages, the third broadcast drops the session), disconnects, idle unloads, a final re-subscribe under both names; SEQUENTIAL scenarios: 6-18 single requests over group topics with and without channel functionality, {leave} under either name, a channel name for a plain group now and then (the model's alphabet), compared exactly with the extracted model (replies, Session.subs, Topic.sessions, isChanSub flags, loaded/stored, terminated); non-trivial = at least one request accepted (200); distinct by (requests, replies)",
         "burst_scenarios": len(bursts), "sequential_scenarios": len(seqs), "concurrent_bursts": conc, "requests_issued": nreq,
         "traces_validated_against_impl": compared, "correspondence_mismatches": len(mism),
         "monitor_failures": {k: len(v) for k, v in fails.items()},
@@ -1108,26 +1108,29 @@ def run(ctx):
         "corpus_scenarios": len([sc for sc in bursts if sc.id.startswith("c_")]),
         "theorem_status": {
             "full (every reachable configuration, any number of sessions/topics/instances, any interleaving)": [
-                "c14_inflight_never_low", "c14_reply_at_most_once", "c14_reply_conserved_stepwise", "c14_quiescent_symmetry",
-                "c14_symmetry_modulo_detach", "c14_attached_listed", "c14_terminated_detached", "c14_online_restored",
+                "c14_inflight_never_low", "c14_reply_at_most_one_more", "c14_reply_conserved_stepwise", "c14_quiescent_symmetry",
+                "c14_symmetry_modulo_detach", "c14_attached_listed", "c14_leave_detaches_both_sides", "c14_evict_detaches_both_sides",
+                "c14_terminated_detached", "c14_online_restored",
                 "c14_deleted_stays_deleted", "c14_deleted_refuses", "c14_deleted_load_fails", "c14_deleted_not_running",
                 "c14_deleted_sessions_detached"],
             "refuted by a witness schedule replayed on the real code": [
                 "c14_inflight_balance_statement (c14_inflight_balance_refuted, corpus/C14/01)",
                 "c14_reply_exactly_one_statement (c14_reply_exactly_one_refuted, corpus/C14/03)",
+                "c14_reply_at_most_once_statement (c14_reply_at_most_once_refuted, corpus/C14/12: a plain group left by a channel name is answered 404 and 200)",
                 "c14_no_stuck_statement (c14_no_stuck_refuted_lost_leave corpus/C14/02, c14_no_stuck_refuted_nil_done corpus/C14/01)"],
             "partial (on the executions that avoid exactly the refuting steps)": [
                 "c14_inflight_balance_partial (reach_safe: no load failure of an instance with a queued termination request)",
-                "c14_reply_exactly_one_partial, c14_reply_at_quiescence_partial (reachI_ok: none of the three steps of `lossy`)",
+                "c14_reply_exactly_one_partial, c14_reply_at_quiescence_partial (reachI_ok: none of the three steps of `lossy`, nor the step of `noisy`)",
+                "c14_reply_at_most_once_partial (reachI_nd: no `noisy` step = the topic takes a client's {leave} written with a channel name although it has no channel functionality)",
                 "c14_no_stuck_partial (reach_safe and no request in a queue of an instance whose goroutine is gone)"],
             "tested in support, NOT proved": [
                 "last clause of the property (shared data touched only under its lock / atomic): Go race detector on the burst scenarios, thorough tier",
-                "account deletion, p2p, 'me', channels, presence, bounded channel capacities: burst driver + laws only"]},
+                "account deletion, p2p, 'me', per-user records (online counters, who is a group subscriber / a reader: 303 / 403 refusals of {sub}), presence, bounded channel capacities: burst driver + laws only"]},
         "trusted_base": [
             "harness/overlay/server/zz_verif_c14_test.go: reader/writer goroutines standing in for the websocket loops (hdl_websock.go:39-145); quiescence = every goroutine parked in a receive/select + hub/topic queues empty + no request pending (runtime.Stack snapshot, as vQuiescent of the topic driver); a hang = every goroutine parked while a request is pending or a goroutine sits in a send/lock/semaphore, in 20 consecutive snapshots (no wall-clock guess); goroutines diagnosed as parked for ever are reported once and then ignored; direct field reads at quiescence",
             "harness/overlay/server/db/memverif: in-memory adapter (store contract modelled, not verified)",
             "tools/props/c14.py laws: python restatement of the property on the driver's output; laws with a circumstance in their name are the narrow forms of reproduced defects (findings/C14.md, KNOWN_FINDINGS.txt) - a failure outside these circumstances keeps the general name and is a violation",
-            "Lifecycle.v scope: group topics, owners delete, unbounded FIFO queues (real buffers: hub.join 256, hub.unreg 256, topic.reg/unreg 256, meta 64, exit 1, session.detach 64, session.stop 1): deadlocks that need a full buffer are outside the model; hub and topic handler bodies are atomic steps; account deletion, p2p, 'me', channels, presence are exercised by the driver only",
+            "Lifecycle.v scope: group topics with or without channel functionality addressed under either name (asChan / isChanSub, the name-form check of handleLeaveRequest after the detach, the 404 that does not return), owners delete, unbounded FIFO queues (real buffers: hub.join 256, hub.unreg 256, topic.reg/unreg 256, meta 64, exit 1, session.detach 64, session.stop 1): deadlocks that need a full buffer are outside the model; hub and topic handler bodies are atomic steps; account deletion, p2p, 'me', per-user records, presence are exercised by the driver only",
             "sequential schedules (one request per burst) are compared exactly with the extracted model; concurrent bursts are judged by the laws only (the model's interleavings are quantified over in the theorems, not enumerated by the run)",
             "last clause of the property (shared data only touched under its lock/atomic): NOT proved, no Gallina model expresses Go memory accesses; checked dynamically by the Go race detector in the thorough tier (testing in support)"],
     })
